@@ -252,3 +252,42 @@ Example C15_nonvacuous_skip :
   eval 10 nv_env nv_e3 nv_s = EFail FDivZero nv_s /\
   nv_err (steps nv_f (code_of [] 0 nv_e3 nv_st ++ [nv_ret]) 8 (Running nv_a nv_g)) = Some E_div_zero.
 Proof. vm_compute. repeat split. Qed.
+
+(* ---------------------------------------------------------------------------------------------
+   The SOURCE-LEVEL statement for whole PROGRAMS, as a theorem on a decidable fragment (Compile/ClosFrag.v .. ClosTop.v,
+   the fragment of C07_closure_programs_correct_partial widened by: `self(..)`; `&&` `||` `!` whose operands contain
+   calls; `(a) or b` and `get a` whose operands contain calls; if / else).  Its programs are those of this check
+   (vlib/c15.py: PRELUDE -- a module variable x, functions that print and return (bump modifies x), `rec` calling
+   self -- followed by `print <expression tree>` statements built from + - * / % comparisons && || ! over CALLS,
+   nested calls as arguments, `0 - e`).  For every such program the model compiler's code, run by the VM model,
+   prints exactly the lines the reference semantics (Lang/Eval.v) prints and ends the same way.  Because every operand
+   that is a call prints, equality of the printed lines IS the statement of C15 for these programs: operands are
+   evaluated left to right, each exactly once; a variable operand keeps the value it had when it was evaluated although a
+   later sibling modifies the variable; `a && b` / `a || b` do not evaluate b (the call is skipped: nothing is printed)
+   when a decides; a division / remainder by zero stops both sides with the related error after the same output.
+   The check evaluates the extracted `in_fragment` (= in_fragment1 || in_fragment2) on every program it generates.
+   PARTIAL: programs outside the fragment (list / map / class forms, op-assignments: the extended streams of the check)
+   are covered by the T1/T2/T3 correspondences and the Python oracle only. *)
+From MS Require Import Lang.Eval Compile.Compile.
+From MS Require Import Compile.ClosFrag Compile.ClosRel Compile.ClosSim Compile.ClosTop Compile.StmtSim Compile.StmtFragB Compile.StmtExamples Compile.ClosExamples2.
+Check closure_module_correct.
+Theorem C15_order_programs_correct_partial : forall (path : str) (p : source), in_fragment2 path p = true ->
+  forall fuel : nat, snd (run fuel p) <> ROFuel ->
+  no_claim (snd (run fuel p)) \/
+  (exists fuel' : nat,
+     fst (fst (execute fuel' (cprogram path p) (s_module_fn path))) = fst (run fuel p) /\
+     vm_outcome_ok (snd (run fuel p)) (snd (fst (execute fuel' (cprogram path p) (s_module_fn path))))).
+Proof. exact closure_module_correct. Qed.
+Print Assumptions C15_order_programs_correct_partial.
+(* the same on the union of the two proved fragments (what the check's in_fragment column evaluates) *)
+Check fragment_correct.
+(* expressions of any kind: operands in order, the parked left operand survives the calls on the right (espec_bin),
+   short-circuit over calls (espec_logic), self calls (espec_self) *)
+Check espec_all.
+(* non-vacuity: the prelude of the check with `log(1) + two(log(2), bump(3)) * x`, `logb(4, false) && logb(5, true)`
+   (5 is not printed), `||`, `!`, rec(2), pick(x, bump(12), x, bump(13)), x / bump(14), 0 - log(15): inside the fragment,
+   VM == reference semantics, 31 lines; and the failure case `log(1) % zero()` *)
+Check C15_nv_order_program.
+Check C15_nv_division_by_zero.
+Example C15_nv_in_fragment : in_fragment2 nvp nv_c15 = true /\ in_fragment nvp nv_c15 = true /\ in_fragment2 nvp nv_c15_div = true.
+Proof. vm_compute. repeat split. Qed.
